@@ -82,10 +82,12 @@ def run_case(ctx, index, calls=None):
   rng = ctx.rng(index)
   tmp = tempfile.mkdtemp(prefix='vv-c07-', dir=os.environ.get('VV_TMP'))
   try:
-    ram = rpcprog.ProgramRunner('ram')
+    recycle = [0.0, 60.0][index % 2]
+    ram = rpcprog.ProgramRunner('ram', early_stop_recycle_s=recycle)
     others = {
-        'sqlmem': S.make_servicer('sqlmem', S.Controller(), S.WriteMonitor()),
-        'sqlfile': S.make_servicer(f'sqlite:///{tmp}/v.db', S.Controller(), S.WriteMonitor()),
+        'sqlmem': S.make_servicer('sqlmem', S.Controller(), S.WriteMonitor(), early_stop_recycle_s=recycle),
+        'sqlfile': S.make_servicer(f'sqlite:///{tmp}/v.db', S.Controller(), S.WriteMonitor(),
+                                   early_stop_recycle_s=recycle),
     }
     n = rng.choice([8, 12, 20, 30, 40]) if calls is None else len(calls)
     executed = []
